@@ -281,6 +281,7 @@ pub fn run(c: &mut Ctx) {
         match crate::util::mix(idx) % 8 {
             0 => map_pair::<T24, T24>(c, &tspec, &sspec, rng),
             1 => map_pair::<P8, T24>(c, &tspec, &sspec, rng),
+            2 if rng.chance(1, 3) => map_pair::<elem::L600, B1>(c, &tspec, &sspec, rng),
             2 => map_pair::<L200, B1>(c, &tspec, &sspec, rng),
             3 => map_pair::<P8, P8>(c, &tspec, &sspec, rng),
             4 => {
